@@ -42,6 +42,8 @@ pub trait VecAdditionalExecFns {}
 impl F { #[verifier::external_body] pub fn from(x: usize) -> (r: Option<F>) ensures r == Some(f_from_usize(x)) { unimplemented!() } }
 impl AsFloatT for usize { #[verifier::external_body] fn as_T(&self) -> (r: F) ensures r == f_from_usize(*self) { unimplemented!() } }
 // F-real reading of the conversion (ASSUMED; exact for k < 2^53)
+// ASSUMED (as in units steplen / composite): the largest finite value exceeds one
+pub broadcast proof fn ax_maxval() ensures #[trigger] f_maxval().v() > 1real { admit(); }
 pub broadcast proof fn ax_from_usize(k: usize) ensures #[trigger] f_from_usize(k).v() == k as real { admit(); }
 // natural logarithm: uninterpreted
 pub uninterp spec fn f_ln(a: F) -> F;
@@ -116,7 +118,10 @@ impl CompositeCone<F> {
     { unimplemented!() }
     #[verifier::external_body]
     pub fn scaled_unit_shift(&self, z: &mut [F], alpha: F, pd: PrimalOrDualCone)
-        ensures final(z)@.len() == old(z)@.len(), self.margin(final(z)@, pd) == self.margin(old(z)@, pd) + alpha.v(),
+        // (the form PROVED for the real dispatch loop in unit `composite`: a list of zero cones only sits at max_value and stays there)
+        ensures final(z)@.len() == old(z)@.len(),
+            self.margin(final(z)@, pd) >= (if self.margin(old(z)@, pd) + alpha.v() <= f_maxval().v() { self.margin(old(z)@, pd) + alpha.v() } else { f_maxval().v() }),
+            alpha.v() >= 0real ==> self.margin(final(z)@, pd) <= self.margin(old(z)@, pd) + alpha.v(),
     { unimplemented!() }
     #[verifier::external_body]
     pub fn unit_initialization(&self, z: &mut [F], s: &mut [F])
@@ -170,11 +175,13 @@ pub open spec fn shift_target(pos: real, deg: nat) -> real { rmax(1real, (pos * 
         final(z)@.len() == old(z)@.len(), final(cones).margin(final(z)@, pd) >= 1real,
         // exactly: a point with a good margin is left where it is, every other one is moved to the target margin
         // (degree 0, a product of zero cones only, makes the target 0/0: outside the F-real model, the bound above still holds)
-        old(cones).degree_spec() > 0 ==> final(cones).margin(final(z)@, pd) == rmax(old(cones).margin(old(z)@, pd),
+        // (and a target beyond the largest finite value, where the composite margin saturates: likewise)
+        old(cones).degree_spec() > 0 && shift_target(old(cones).pos_margin(old(z)@, pd), old(cones).degree_spec()) <= f_maxval().v()
+            && old(cones).margin(old(z)@, pd) <= f_maxval().v() ==> final(cones).margin(final(z)@, pd) == rmax(old(cones).margin(old(z)@, pd),
             shift_target(old(cones).pos_margin(old(z)@, pd), old(cones).degree_spec())),
         *final(cones) == *old(cones),
 //@pre
-    broadcast use real_arith, ax_from_usize;
+    broadcast use real_arith, ax_from_usize, ax_maxval;
 //@end
 
 // ------------------------------------------------------------------ DefaultVariables
